@@ -265,7 +265,7 @@ def replay_nested(w):
       bad = True
       msgs.append(f'nested_lengths={fa}: raised {type(ex).__name__}: {str(ex)[:120]}')
       continue
-    e = max(abs(float(c - c0)), float(jnp.abs(jnp.asarray(y).reshape(-1) - y0).max())) if jnp.asarray(y).size == n else float('inf')
+    e = max(abs(float(c - c0)), float(jnp.abs(jnp.asarray(y).reshape(-1) - y0).max())) if jnp.asarray(y).shape == jnp.asarray(y0).shape else float('inf')
     if e > 1e-12:
       bad = True
       msgs.append(f'nested_lengths={fa}: carry {float(c)} vs flat {float(c0)}; outputs {np.asarray(y).tolist()} vs {np.asarray(y0).tolist()}')
